@@ -6,6 +6,7 @@ from ..callgraph import CallGraph, fid
 from ..cfg import CFG, cfg_of, fact_key, norm, walk_own, _own_exprs
 from ..locks import regions
 from ..mutate import B, M
+from .c03 import fetch_guard_rules
 
 PROP = 'C02'
 CF = 'cflib/crazyflie/__init__.py'
@@ -27,7 +28,7 @@ EXPLANATION = (
     'attribute that other threads null (Crazyflie.link); R10 the dispatcher idles while there is no link. Bounded *time* and the clause '
     '"no connected after the first disconnected" are not decided.')
 ASSUMPTIONS = ['user callbacks are opaque and assumed not to block on library locks', 'a timed join/wait is treated as non-blocking for deadlock purposes']
-FLOORS = {'R1': 4, 'R2': 9, 'R3': 7, 'R4': 4, 'R5': 5, 'R6': 1, 'R7': 1, 'R8': 4, 'R9': 3, 'R10': 2}
+FLOORS = {'R11': 4, 'R12': 4, 'R1': 4, 'R2': 9, 'R3': 7, 'R4': 4, 'R5': 5, 'R6': 1, 'R7': 1, 'R8': 4, 'R9': 3, 'R10': 2}
 
 
 def blocking_calls(func):
@@ -226,6 +227,19 @@ def check(ctx):
                     ctx.inst('R7', f, 'join-under-send-lock:' + holder, False,
                              'untimed %s is reachable while Crazyflie._send_lock is held (%s) and the joined thread %s can block on that lock (%s): deadlock'
                              % (norm(c), ' ; '.join(['send_packet'] + chain[-5:]), r.split(':')[-1], ' ; '.join(cg.chain(needs_lock[r], me)[-3:])), line=c.lineno)
+    # re-acquisition of the (non re-entrant) send lock on the thread that holds it
+    for f_id in prev:
+        f = cg.funcs.get(f_id)
+        if f is None or f_id == me:
+            continue
+        for c in ast.walk(f.node):
+            again = (isinstance(c, ast.Call) and method_call(c, 'acquire') and norm(c.func.value).endswith('_send_lock')) or \
+                (isinstance(c, ast.With) and any(norm(i.context_expr).endswith('_send_lock') for i in c.items))
+            if again:
+                n7 += 1
+                ctx.inst('R7', f, 'reacquire-send-lock', False,
+                         '%s takes Crazyflie._send_lock and is reachable while send_packet already holds it (%s): threading.Lock is not re-entrant, the thread deadlocks with itself'
+                         % (f.qualname, ' ; '.join(['send_packet'] + cg.chain(prev, f_id)[-5:])), line=getattr(c, 'lineno', 0))
     ctx.inst('R7', sp, 'no-blocking-wait-under-send-lock', n7 == 0, 'functions reachable from the held region: %d; threads that need the send lock: %s' % (len(prev), sorted(r.split(':')[-1] for r in needs_lock)))
 
     # ---- R8: self-join ----------------------------------------------------------------
@@ -249,6 +263,30 @@ def check(ctx):
                          '%s can run on the very thread it joins (%s): unprotected it raises RuntimeError, aborting the disconnect path; protection: %s'
                          % (norm(c), ' ; '.join(cg.chain(r, f_id)[-4:]) or 'direct', how), line=c.lineno)
     ctx.need(n8 >= 3, 'self-join analysis found only %d candidate sites' % n8)
+
+    # ---- R11: `connected` only once the tables are complete (shared guard rule, see C03.R1) ---------
+    fetch_guard_rules(ctx, 'R11')
+
+    # ---- R12: the parameter thread never keeps its request lock without a request in flight ------
+    pu = m.func('cflib/crazyflie/param.py', '_ParamUpdater.run')
+    gp = cfg_of(pu)
+    acq = gp.find(lambda q: method_call(q, 'acquire') and norm(q.func.value) == 'self.wait_lock')
+    wl = [n for n in gp.nodes if n.kind == 'while']
+    ctx.need(len(acq) == 1 and len(wl) == 1, '_ParamUpdater.run: loop / acquire not found')
+    outs = [n for n, c in gp.find(lambda q: (method_call(q, 'send_packet')) or (method_call(q, 'release') and norm(q.func.value) == 'self.wait_lock'))]
+    w = gp.path_avoiding(acq[0][0], [wl[0], gp.exit], avoid=outs)
+    ctx.inst('R12', pu, 'lock-kept-only-with-request-in-flight', w is None,
+             'after wait_lock.acquire() a path reaches the next iteration with neither a transmission (whose reply releases the lock) nor a release: %s - '
+             'after a link loss the thread then waits forever and the object cannot fetch parameters again' % (gp.fmt_path(w) if w else ''))
+    sends = gp.find(lambda q: method_call(q, 'send_packet'))
+    ctx.inst('R12', pu, 'send-only-with-link', all(fact_key('self.cf.link', True) in gp.fact_keys_at(n) for n, _ in sends) and bool(sends),
+             'a request is transmitted (and the lock kept) only while a link exists; otherwise the lock is handed back')
+    cl2 = m.func('cflib/crazyflie/param.py', '_ParamUpdater.close')
+    rel = [c for c in walk_own(cl2.node) if method_call(c, 'release') and norm(c.func.value) == 'self.wait_lock']
+    dr = [c for c in walk_own(cl2.node) if method_call(c, 'get') and norm(c.func.value) == 'self.request_queue']
+    ctx.inst('R12', cl2, 'close-drains-and-releases', len(rel) == 1 and len(dr) == 1, 'on disconnect the queue is drained and the lock released')
+    pd = m.func('cflib/crazyflie/param.py', 'Param._disconnected')
+    ctx.inst('R12', pd, 'disconnect-closes-updater', any(method_call(c, 'close') and norm(c.func.value) == 'self.param_updater' for c in walk_own(pd.node)), 'Param._disconnected closes the updater')
 
     # ---- R9 / R10 ------------------------------------------------------------------------
     for path, qual in ((CF, '_IncomingPacketHandler.run'), ('cflib/crazyflie/param.py', '_ParamUpdater.run'), ('cflib/crazyflie/param.py', '_ExtendedTypeFetcher.run')):
